@@ -2,8 +2,9 @@ CHECK = {
     "obligations": ["C01.c01_prefix", "C01.c01_complete", "C01.c01_chunks_flatten", "C01.isolation", "C01.Pool.c01_pick_ok",
                     "C01.Pool.c01_pick_pinned_witness", "C01.gen_loop", "C01.gen_fits", "C01.gen_unit", "C01.gen_limits",
                     "C01.gen_structure", "C01.gen_publish", "C02.c02_reassembly", "C02.c02_prefix_always", "C02.gen_structure",
-                    "E2E.c01_end_to_end", "E2E.c01_end_to_end_prefix", "E2E.wire_sim", "E2E.isEnc_exists", "C04.c04_roundtrip"],
-    "lean_module": "CloakModel.Props.E2E",
+                    "E2E.c01_end_to_end", "E2E.c01_end_to_end_prefix", "E2E.wire_sim", "E2E.isEnc_exists", "C04.c04_roundtrip",
+                    "E2E.c01_end_to_end_bytes", "E2E.c01_end_to_end_bytes_prefix", "E2E.conn_handed", "E2E.labelled", "C05.c05_roundtrip", "C05.gen_structure"],
+    "lean_module": "CloakModel.Props.E2EWire",
     "scenarios": ["C01"],
     "reset_ops": ["ss.new"],
     "rule": "core rig: session pairs (4 methods, 1..8 connections, singleplex, 1..64 (..500 thorough) streams), writes of sizes {1,2,unit-1,unit,unit+1,2unit+3,random} "
